@@ -401,7 +401,7 @@ class Scenario:
     route: 'smtproutes' (control/smtproutes with relay host MX[0] and the port) or 'routefile'
     (control/smtproutes.d/<domain> with port [+ clientcert]; the mail exchangers come from DNS)."""
 
-    def __init__(self, name, peers, route='routefile', clientcert=False, pinned=None, tlsa=None, relay=None, expect=None, note=''):
+    def __init__(self, name, peers, route='routefile', clientcert=False, pinned=None, tlsa=None, relay=None, expect=None, note='', routefile='exact'):
         self.name, self.peers, self.route, self.clientcert = name, peers, route, clientcert
         self.pinned = pinned or {}      # mx index -> file in the PKI used as control/tlshosts/<fqdn>.pem
         self.tlsa = tlsa or {}          # mx index -> list of (usage, selector, mtype, data | 'spki:<kind>')
@@ -409,6 +409,7 @@ class Scenario:
         self.expect = expect or {}
         self.note = note
         self.timeoutremote = 3
+        self.routefile = routefile      # 'exact': smtproutes.d/<domain>; 'wildcard': smtproutes.d/*.<parent domain>
 
 
 class Result:
@@ -516,7 +517,8 @@ class World:
                 lines.append('relay=' + sc.relay)
             if sc.clientcert:
                 lines.append('clientcert=control/routeclient.pem')
-            open(os.path.join(ctl, 'smtproutes.d', dom), 'w').write('\n'.join(lines) + '\n')
+            fn = dom if sc.routefile == 'exact' else '*' + dom[dom.index('.'):]
+            open(os.path.join(ctl, 'smtproutes.d', fn), 'w').write('\n'.join(lines) + '\n')
         for k, f in sc.pinned.items():
             shutil.copy(self.pki.path(f), os.path.join(ctl, 'tlshosts', fq[k] + '.pem'))
         msg = os.path.join(d, 'msg')
